@@ -51,6 +51,24 @@ func (m *monitors) released(size int64) {
 	m.maxSig = max(m.maxSig, size)
 }
 
+// public ("recorded before released", as C14's mon_public): a mirror checkpoint that becomes
+// publicly readable under mirror/<hash>/checkpoint is, at that moment, the value recorded in the
+// mirror register (s.mu held)
+func (m *monitors) public(s *sim, data []byte) {
+	var problems []string
+	rec := s.locks[s.mkey]
+	if !bytes.Equal(rec, data) {
+		pub, _, _, _ := parseNote(data)
+		what := "the empty register"
+		if c, _, _, ok := parseNote(rec); ok {
+			what = fmt.Sprintf("a checkpoint of size %d", c.size)
+		}
+		problems = append(problems, fmt.Sprintf("the mirror checkpoint of size %d became public while the mirror register holds %s (not recorded before released)",
+			pub.size, what))
+	}
+	m.line(s, "public", problems)
+}
+
 // monotone: one line per event in which a mirror checkpoint was recorded, published or released
 func (m *monitors) monotone(s *sim) {
 	if m.monoChecks == 0 {
